@@ -32,7 +32,7 @@ ASSUMPTIONS = [
     "complete response",
 ]
 MIN = {"quick": {"evaluations": 220000, "nontrivial": 220000, "outcomes": 7},
-       "thorough": {"evaluations": 600000, "nontrivial": 400000, "outcomes": 8}}
+       "thorough": {"evaluations": 2000000, "nontrivial": 2000000, "outcomes": 7}}
 
 TIMINGS = ["now", "before-next-event", "after-loss"]
 
@@ -188,6 +188,7 @@ class Obs:
         self.attached = False
         self.raised = None
         self.delivered = 0
+        self.lost_before_close = None   # consumer connectionLost calls seen before the transport went away
 
 
 _BODY = None
@@ -261,6 +262,7 @@ def execute(spec, t, cuts, timing):
             proto.dataReceived(prefix[a:b])
         if timing == "before-next-event" and obs.response is not None and not obs.attached:
             attach()
+        obs.lost_before_close = len(obs.lost) if obs.attached else None
         proto.connectionLost(Failure(ConnectionDone()))
         if obs.response is not None and not obs.attached:
             attach()
@@ -303,6 +305,13 @@ def check(spec, t, cuts, timing):
         fails.append(("response-later-than-headers", "headers complete at %d (delivery ending %d), fired at %d" % (H, first_after, obs.fired_at)))
     if val.code != status:
         fails.append(("status-differs", "%r vs %r" % (val.code, status)))
+    # the response is the final one: nothing of an interim 1xx response leaks into it
+    try:
+        xa, xi = val.headers.getRawHeaders(b"x-a"), val.headers.getRawHeaders(b"x-interim")
+    except Exception as e:
+        xa, xi = repr(e), None
+    if xa != [b"v"] or xi is not None:
+        fails.append(("response-headers-differ", "X-A %r (sent once, 'v'), X-Interim %r (only in the 1xx)" % (xa, xi)))
     # body consumer
     exp_body = bytes(raw[i] for i in range(H, min(D, len(raw))) if marks[i])
     got_body = b"".join(obs.data)
@@ -326,6 +335,11 @@ def check(spec, t, cuts, timing):
         ok = reason.check(ResponseDone, PotentialDataLoss) is None
     if not ok:
         fails.append(("body-connectionLost-reason", "%s, expected %s" % (reason.type.__name__, want)))
+    # a length- or chunk-delimited body that arrived completely is reported when it is complete,
+    # not only when the server happens to close the connection
+    if want == "ResponseDone" and obs.lost_before_close == 0:
+        fails.append(("body-connectionLost-only-at-close",
+                      "whole body delivered (%d bytes), consumer attached, nothing reported until the connection closed" % D))
     if obs.made != 1:
         fails.append(("body-makeConnection-count", str(obs.made)))
     return fails, where, obs
@@ -347,7 +361,7 @@ def signature(spec, fails, where, timing):
 # ---------------------------------------------------------------- contract
 def shards(tier, seed):
     n = len(specs(tier))
-    per = 1 if tier == "quick" else 4
+    per = 1 if tier == "quick" else 2
     return [[i, min(i + per, n)] for i in range(0, n, per)]
 
 
